@@ -35,6 +35,7 @@ func runC05(p *Prog, r *Report) {
 	candidatesUnfilteredRule(p, r, "C05.R9")
 	fieldPathRule(p, r, "C05.R10")
 	ignoreEveryFieldRule(p, r, "C05.R11")
+	typeStringOpaqueRule(p, r, "C05.R12")
 	armStoresRule(p, r, "C05.R7", "config.parseMethodLine", "map", "ignore", "autoMap")
 }
 
